@@ -99,7 +99,10 @@ Fixpoint decode_kind (f : fd) (k : SchemaDefs.fkind) (t : str) : option xval :=
       let v := trim_set strip t in
       let delim := if SchemaDefs.has_delim f && negb (seq (SchemaDefs.delim f) []) then SchemaDefs.delim f else lit " " in
       let els := if seq delim (lit " ") then fields v
-                 else match delim with d :: _ => GS.split d v | [] => [v] end in
+                 else match v with
+                      | [] => []          (* an empty value has no elements (repair of the r12 finding: Split("", ",") = [""]) *)
+                      | _ => match delim with d :: _ => GS.split d v | [] => [v] end
+                      end in
       option_map XList (mapM_opt (fun e => decode_kind f k' (trim_set strip e)) els)
   | SchemaDefs.KPtr _ | SchemaDefs.KOther => None
   end.
